@@ -80,13 +80,40 @@ def collect_points(parsed, pts):
                 pts.update((lo, hi + 1))
 
 
+_CAT_CACHE = {}
+
+
+def _intervals(pred):
+    out = []
+    lo = None
+    for c in range(0x110000):
+        if pred(chr(c)):
+            if lo is None:
+                lo = c
+        elif lo is not None:
+            out.append((lo, c - 1))
+            lo = None
+    if lo is not None:
+        out.append((lo, 0x10ffff))
+    return out
+
+
 def category_intervals(cat):
-    if cat is C.CATEGORY_DIGIT:
-        # re's \d on str patterns is Unicode-aware; the repository's regexes do not use it. ASCII approximation is refused.
-        raise AnalysisError('\\d category is Unicode dependent: not supported')
-    if cat is C.CATEGORY_SPACE:
-        raise AnalysisError('\\s category not supported')
-    raise AnalysisError('regex category %s not supported' % cat)
+    """code point intervals of a regex category on a str pattern (Unicode semantics, as `re` applies them without re.ASCII)."""
+    if cat in _CAT_CACHE:
+        return _CAT_CACHE[cat]
+    preds = {
+        C.CATEGORY_DIGIT: lambda ch: ch.isdecimal(),
+        C.CATEGORY_NOT_DIGIT: lambda ch: not ch.isdecimal(),
+        C.CATEGORY_SPACE: lambda ch: ch.isspace(),
+        C.CATEGORY_NOT_SPACE: lambda ch: not ch.isspace(),
+        C.CATEGORY_WORD: lambda ch: ch.isalnum() or ch == '_',
+        C.CATEGORY_NOT_WORD: lambda ch: not (ch.isalnum() or ch == '_'),
+    }
+    if cat not in preds:
+        raise AnalysisError('regex category %s not supported' % cat)
+    r = _CAT_CACHE[cat] = _intervals(preds[cat])
+    return r
 
 
 class NFA:
@@ -150,6 +177,9 @@ def _charset(alpha, op, av):
                 out.update(alpha.atoms_of(a2, a2))
             elif o2 is C.RANGE:
                 out.update(alpha.atoms_of(a2[0], a2[1]))
+            elif o2 is C.CATEGORY:
+                for lo, hi in category_intervals(a2):
+                    out.update(alpha.atoms_of(lo, hi))
             else:
                 raise AnalysisError('regex set item %s not supported' % o2)
         return frozenset(alpha.all() - out) if neg else frozenset(out)
@@ -166,6 +196,10 @@ def _item(n, op, av, cur):
     if op in (C.LITERAL, C.NOT_LITERAL, C.IN, C.ANY):
         t = n.new()
         n.tr[cur].append((_charset(n.alpha, op, av), t))
+        return t
+    if op is C.CATEGORY:
+        t = n.new()
+        n.tr[cur].append((_charset(n.alpha, C.IN, [(C.CATEGORY, av)]), t))
         return t
     if op is C.BRANCH:
         end = n.new()
